@@ -172,8 +172,8 @@ func main() {
 			}
 			add(first(runOnce(inst, func(en []int, _ int) int { return en[len(en)-1] }, "sequential:backward")))
 			// every schedule with ONE switch: thread a runs k steps, then thread b runs as far as it can, then the rest
-			// (systematic, for the corpus and the first drawn instances; all instances in the thorough tier)
-			if ii < len(sc.Corpus())+4 || *tier == "thorough" {
+			// (systematic, for the corpus and the first 4 drawn instances; the first 24 in the thorough tier)
+			if ii < len(sc.Corpus())+4 || (*tier == "thorough" && ii < len(sc.Corpus())+24) {
 				_, s0 := runOnce(inst, func(en []int, _ int) int { return en[0] }, "probe")
 				steps := map[int]int{}
 				for _, ch := range s0.Choices {
